@@ -452,6 +452,9 @@ def _run_amounts(prog, fn, cfg):
   def ev(e):
     if isinstance(e, ast.Constant):
       return e.value
+    if isinstance(e, ast.IfExp):
+      # amounts are concrete here: the test is decided
+      return ev(e.body) if ev(e.test) else ev(e.orelse)
     if isinstance(e, ast.Name):
       if e.id in env:
         return env[e.id]
